@@ -12,3 +12,5 @@ import ChiaModel.Props.C11
 #print axioms ChiaModel.C11.encodeNumber_nonneg
 #print axioms ChiaModel.C11.canon_unique
 #print axioms ChiaModel.C11.sanitizeUint_canon
+#print axioms ChiaModel.C11.encodeNumber_neg
+#print axioms ChiaModel.C11.decodeNumber_value
